@@ -122,7 +122,7 @@ PROPS = {
                        "happens); goroutine scheduling of the engine is exercised by the harness but not modelled. The proof is about the "
                        "model; the code is covered as far as the correspondence run explores (reported in evidence)."),
         "technique": "Lean 4 proof (induction over snapshot scripts / status lists, nested-inductive equivalence) + differential correspondence against the real Go code",
-        "domains": ["aggregate", "rsequal", "poll", "collector", "podctl", "readstatus"],
+        "domains": ["aggregate", "rsequal", "poll", "pollcache", "collector", "podctl", "readstatus"],
         "rule": ("aggregate: EVERY list of the 6 statuses of length <= 4 (quick) / <= 5 (thorough) x every desired status through the real "
                  "AggregateStatus, plus random lists of length 6..25; rsequal: generated pairs of ResourceStatus trees (clone / one-field "
                  "mutation anywhere in the tree incl. nil-resource vs generation 0, error present/absent/text, generated list length and order "
@@ -131,7 +131,10 @@ PROPS = {
                  "errors or cancelling the context at any point; validation / reader-factory errors), incl. every sequence of length <= 4 over "
                  "three variants of one resource x 8 endings; collector: random event streams through the real ResourceStatusCollector; podctl: "
                  "the real podControllerStatusReader.readStatus with scripted pod statuses / compute results / errors; readstatus: the real generic "
-                 "status reader (mapper lookup, Get, status function) over every combination of outcomes and error kinds. Non-trivial: aggregate "
+                 "status reader (mapper lookup, Get, status function) over every combination of outcomes and error kinds; pollcache: the real "
+                 "polling.NewStatusPoller (engine + default CachingClusterReader + default status readers) whose context is cancelled / times out "
+                 "while the k-th LIST of the cluster reader is in flight (k = 0..8, context error returned bare, wrapped in *url.Error or with %w) or "
+                 "between two polls: the channel must close without an error event. Non-trivial: aggregate "
                  "lists of length >= 2, poll scripts with >= 2 polls and >= 1 id, collector streams with >= 2 events; distinct = distinct canonical input JSON."),
         "exhaustive_quick": False,
         "explanation": ("Theorems (CliUtils.Props.C17): aggregate_rule, aggregate_perm_invariant, aggregate_set_invariant, rsEqual_equivalence, "
